@@ -396,6 +396,34 @@ func c05Propagation(r *Run) {
 				return true
 			}
 			switch e := ext.(type) {
+			case *ast.Ident:
+				// a local that holds the parent's pointer: `ext := enc.extension` (assigned once)
+				if obj := tt.TypesInfo.Uses[e]; obj != nil {
+					nDef, fromParent := 0, false
+					ast.Inspect(file, func(n2 ast.Node) bool {
+						as, ok := n2.(*ast.AssignStmt)
+						if !ok {
+							return true
+						}
+						for i, lhs := range as.Lhs {
+							id, ok := lhs.(*ast.Ident)
+							if !ok || (tt.TypesInfo.Defs[id] != obj && tt.TypesInfo.Uses[id] != obj) {
+								continue
+							}
+							nDef++
+							if i < len(as.Rhs) {
+								if se, ok := as.Rhs[i].(*ast.SelectorExpr); ok && se.Sel.Name == "extension" {
+									fromParent = true
+								}
+							}
+						}
+						return true
+					})
+					if nDef == 1 && fromParent {
+						r.OK("C05.V3", key, cl.Pos(), "nested %s shares its parent's version state (through the local %s)", tn, e.Name)
+						return true
+					}
+				}
 			case *ast.SelectorExpr:
 				if e.Sel.Name == "extension" {
 					r.OK("C05.V3", key, cl.Pos(), "nested %s shares its parent's version state (%s)", tn, types.ExprString(e))
@@ -454,8 +482,52 @@ func c05Propagation(r *Run) {
 							if !ok || st.Addr != ssa.Value(x) {
 								continue
 							}
-							// value: load of FieldAddr(parent coder, field 0)
-							if ld, ok := st.Val.(*ssa.UnOp); ok && ld.Op == token.MUL {
+							// value: load of FieldAddr(parent coder, field 0), directly or captured by the callback closure
+							val := st.Val
+							if ld, isLd := val.(*ssa.UnOp); isLd && ld.Op == token.MUL {
+								if fv, isFV := ld.X.(*ssa.FreeVar); isFV {
+									// captured by reference: the cell in the enclosing function, assigned once
+									if par := f.Parent(); par != nil {
+										allInstrs(par, func(i3 ssa.Instruction) {
+											mc, ok := i3.(*ssa.MakeClosure)
+											if !ok || mc.Fn != ssa.Value(f) {
+												return
+											}
+											for bi, fv2 := range f.FreeVars {
+												if fv2 != fv {
+													continue
+												}
+												if cell, ok := mc.Bindings[bi].(*ssa.Alloc); ok {
+													n := 0
+													for _, ref := range *cell.Referrers() {
+														if s2, ok := ref.(*ssa.Store); ok && s2.Addr == ssa.Value(cell) {
+															val = s2.Val
+															n++
+														}
+													}
+													if n != 1 {
+														val = st.Val
+													}
+												}
+											}
+										})
+									}
+								}
+							}
+							if fv, isFV := val.(*ssa.FreeVar); isFV {
+								if par := f.Parent(); par != nil {
+									allInstrs(par, func(i3 ssa.Instruction) {
+										if mc, ok := i3.(*ssa.MakeClosure); ok && mc.Fn == ssa.Value(f) {
+											for bi, fv2 := range f.FreeVars {
+												if fv2 == fv {
+													val = mc.Bindings[bi]
+												}
+											}
+										}
+									})
+								}
+							}
+							if ld, ok := val.(*ssa.UnOp); ok && ld.Op == token.MUL {
 								if pf, ok := ld.X.(*ssa.FieldAddr); ok && pf.Field == 0 && typeName(pf.X.Type()) == tn {
 									shared = true
 								}
@@ -615,6 +687,9 @@ func c05Propagation(r *Run) {
 					resets = true
 				}
 			}
+			if st, ok := in.(*ssa.Store); ok && zeroExtensionStore(st) {
+				resets = true
+			}
 		})
 		if resets {
 			r.OK("C05.V3", "ttlv.Encoder.Clear/resets-version", cf.Pos(), "a cleared encoder carries no version into the next message")
@@ -622,4 +697,28 @@ func c05Propagation(r *Run) {
 			r.Bad("C05.V3", "ttlv.Encoder.Clear/resets-version", cf.Pos(), "Encoder.Clear does not reset the protocol version: the next message on the reused encoder is gated by the previous message's version until its own header is written")
 		}
 	}
+}
+
+// zeroExtensionStore: `*enc.extension = extension{}` — the whole version state overwritten with its zero value.
+func zeroExtensionStore(st *ssa.Store) bool {
+	pt, ok := st.Addr.Type().Underlying().(*types.Pointer)
+	if !ok || typeName(pt.Elem()) != "extension" {
+		return false
+	}
+	if k, ok := st.Val.(*ssa.Const); ok && k.Value == nil {
+		return true
+	}
+	// a composite literal with no field set: load of a local that nothing stores into
+	if ld, ok := st.Val.(*ssa.UnOp); ok && ld.Op == token.MUL {
+		if al, ok := ld.X.(*ssa.Alloc); ok {
+			for _, ref := range *al.Referrers() {
+				switch ref.(type) {
+				case *ssa.FieldAddr, *ssa.Store:
+					return false
+				}
+			}
+			return true
+		}
+	}
+	return false
 }
